@@ -347,7 +347,8 @@ def claims(tier):
         olo, ohi = (2, 3) if q else (1, 5)
         for klo in range(0, 30, 10):
             cl.append(Claim("ly_bar[shape%d,keys%d-%d]" % (si, klo, klo + 9), c19_ly_bar, params={"si": si, "clo": clo, "chi": chi, "olo": olo, "ohi": ohi, "klo": klo}, group="c19_ly_bar", pre=[lambda ki, count, si, o: P["klo"] <= ki < P["klo"] + 10 and si == P["si"]], timeout=1200 if q else 3000, bounds="from_Bar shape %d (%r): keys %d..%d, meter count %d..%d, octave %d..%d (all enumerated: the text renders them); with and without key/time" % (si, BAR_SHAPES[si], klo, klo + 9, clo, chi, olo, ohi)))
-    cl.append(Claim("ly_track", c19_ly_track, pre=[lambda k1, k2, m1, m2, o: 0 <= k1 < 6 and 0 <= k2 < 6 and 0 <= m1 < 3 and 0 <= m2 < 3 and 2 <= o <= 4], timeout=1200 if q else 3000, bounds="from_Track / from_Composition: 4 bars over 6x6 key pairs (relative and parallel keys among them) x 3x3 meter pairs: key/time shown exactly on change; header fields"))
+    for k0 in range(6):
+        cl.append(Claim("ly_track[first key %d]" % k0, c19_ly_track, params={"k0": k0}, group="c19_ly_track", pre=[lambda k1, k2, m1, m2, o: k1 == P["k0"] and 0 <= k2 < 6 and 0 <= m1 < 3 and 0 <= m2 < 3 and 2 <= o <= 4], timeout=1200 if q else 3000, bounds="from_Track / from_Composition: 4 bars over 6x6 key pairs (relative and parallel keys among them) x 3x3 meter pairs: key/time shown exactly on change; header fields"))
     for si in range(len(BAR_SHAPES)):
         cl.append(Claim("xml_dom[shape%d]" % si, c19_xml_dom, params={"si": si}, group="c19_xml_dom", pre=[lambda ki, si, o, ntr: 0 <= ki < (30 if not q else 8) and si == P["si"] and 0 <= o <= 7 and 1 <= ntr <= 3], timeout=1200 if q else 3000, bounds="MusicXML DOM: 1..3 parts x 2 measures, first measure shape %d; %s keys; octave symbolic 0..7; ids, numbers, attributes, notes, chord marks, dots, duration/divisions" % (si, "8" if q else "30")))
     cl.append(Claim("xml_single", c19_xml_single, pre=[lambda o, vi: 0 <= o <= 8 and 0 <= vi < len(V)], timeout=1200 if q else 3000, bounds="one note of every vocabulary value (%d values) in an unbounded bar; octave symbolic" % len(V)))
